@@ -306,11 +306,12 @@ class ProgramGen(object):
     integers); *positive* excludes zero counts/multipliers and empty fragments."""
 
     def __init__(self, table, rng, positive=False, leaf_count=None, multiplier=None,
-                 p_dt=0.05, names=True, string_depth=2, string_counts=None):
+                 p_dt=0.05, names=True, string_depth=2, string_counts=None, name_pool=None):
         self.table = table
         self.rng = rng
         self.positive = positive
         self.names = names
+        self.name_pool = list(name_pool) if name_pool else ['water', 'salt', 'sample 7', 'x']
         self.p_dt = p_dt
         self.string_depth = string_depth
         self.universe = universe(table)
@@ -431,7 +432,7 @@ class ProgramGen(object):
             st = {'op': 'seq', 'struct': self.seq(pool), 'tuples': rng.random() < 0.5}
         if self.names and st['op'] != 'empty':
             if rng.random() < 0.12:
-                st['name'] = rng.choice(['water', 'salt', 'sample 7', 'x'])
+                st['name'] = rng.choice(self.name_pool)
             if rng.random() < 0.2:
                 st['density'] = round(10 ** rng.uniform(-1, 1.3), 4)
         return st
